@@ -1,6 +1,7 @@
 package main
 
 import (
+	"context"
 	"fmt"
 	"reflect"
 	"sort"
@@ -16,17 +17,19 @@ import (
 
 // Case is one program of the alphabet (also part of the replay format).
 type Case struct {
-	Op      string `json:"op"`               // create save_new save_existing update updates_struct updates_map delete find first
-	Shape   string `json:"shape"`            // ptr_struct ptr_slice slice_val slice_ptr ptr_slice_ptr ptr_array | val_struct val_array (non-addressable)
-	Len     int    `json:"len"`              // number of in-memory records (find/first: number of rows matched)
-	Kids    string `json:"kids"`             // none pet toys both (find/first: both = Preload Pet and Toys)
-	PtrKids bool   `json:"ptr_kids"`         // root type OwnerP (children held by pointer)
-	Mode    string `json:"mode"`             // hooks skiphooks column
-	Outer   string `json:"outer"`            // implicit (gorm's default transaction) | begin (caller's transaction)
-	Batch   int    `json:"batch,omitempty"`  // batch size of create_batches (CreateInBatches) / create_batchsize (Session{CreateBatchSize}.Create)
-	Graph   string `json:"graph,omitempty"`  // Node graph with shared records (root type Node): chain triangle diamond fan3 two_roots cycle
-	Body    string `json:"body,omitempty"`   // hook body: "" (one Exec through tx) | handle | session | create_update (several statements through one derived handle)
-	Preset  bool   `json:"preset,omitempty"` // graph records carry preset (new) primary keys
+	Op      string `json:"op"`                // create save_new save_existing update updates_struct updates_map delete find first
+	Shape   string `json:"shape"`             // ptr_struct ptr_slice slice_val slice_ptr ptr_slice_ptr ptr_array | val_struct val_array (non-addressable)
+	Len     int    `json:"len"`               // number of in-memory records (find/first: number of rows matched)
+	Kids    string `json:"kids"`              // none pet toys both (find/first: both = Preload Pet and Toys)
+	PtrKids bool   `json:"ptr_kids"`          // root type OwnerP (children held by pointer)
+	Mode    string `json:"mode"`              // hooks skiphooks column
+	Outer   string `json:"outer"`             // implicit (gorm's default transaction) | begin (caller's transaction)
+	Batch   int    `json:"batch,omitempty"`   // batch size of create_batches (CreateInBatches) / create_batchsize (Session{CreateBatchSize}.Create)
+	Graph   string `json:"graph,omitempty"`   // Node graph with shared records (root type Node): chain triangle diamond fan3 two_roots cycle
+	Body    string `json:"body,omitempty"`    // hook body: "" (one Exec through tx) | handle | session | create_update (several statements through one derived handle)
+	Belongs string `json:"belongs,omitempty"` // root type Staff: how the parents' belongs-to Company pointers are shared: distinct shared2 shared_all
+	Prelude string `json:"prelude,omitempty"` // handle derivations made (and abandoned / used once) on the same handle before the operation
+	Preset  bool   `json:"preset,omitempty"`  // graph records carry preset (new) primary keys
 }
 
 // Replay is the replay file: the program plus the choice list (which hook
@@ -46,6 +49,9 @@ func (c Case) String() string {
 	if c.Graph != "" {
 		t = "Node"
 	}
+	if c.Belongs != "" {
+		t = "Staff"
+	}
 	s := fmt.Sprintf("%s %s<%s> len=%d kids=%s mode=%s outer=%s", c.Op, c.Shape, t, c.Len, c.Kids, c.Mode, c.Outer)
 	if c.Batch > 0 {
 		s += fmt.Sprintf(" batch=%d", c.Batch)
@@ -55,6 +61,12 @@ func (c Case) String() string {
 	}
 	if c.Body != "" {
 		s += " hookbody=" + c.Body
+	}
+	if c.Belongs != "" {
+		s += fmt.Sprintf(" belongs_to=%s company_stored=%v", c.Belongs, c.Preset)
+	}
+	if c.Prelude != "" {
+		s += " prelude=" + c.Prelude
 	}
 	return s
 }
@@ -67,6 +79,9 @@ func (c Case) isCreate() bool {
 func (c Case) rootTable() string {
 	if c.Graph != "" {
 		return "nodes"
+	}
+	if c.Belongs != "" {
+		return "staffs"
 	}
 	return "owners"
 }
@@ -154,6 +169,9 @@ func fillRoot(c Case, rv reflect.Value, i int) {
 func buildArg(c Case) interface{} {
 	if c.Graph != "" {
 		return buildGraph(c)
+	}
+	if c.Belongs != "" {
+		return buildStaff(c)
 	}
 	T := c.rootT()
 	n := c.Len
@@ -258,6 +276,63 @@ func buildGraph(c Case) interface{} {
 	return root
 }
 
+// buildStaff builds a slice of Staff whose belongs-to Company pointers are
+// distinct or shared; Preset = the companies are stored rows (key set).
+func buildStaff(c Case) interface{} {
+	n := c.Len
+	cos := make([]*Company, n)
+	for i := range cos {
+		if c.Preset {
+			cos[i] = &Company{ID: uint(i + 1), Name: fmt.Sprintf("c%d", i+1), Note: "n"}
+		} else {
+			cos[i] = &Company{Name: fmt.Sprintf("cn%d", i), Note: "b"}
+		}
+	}
+	pick := func(i int) *Company {
+		switch c.Belongs {
+		case "shared_all":
+			return cos[0]
+		case "shared2": // first and last share, the ones in between have their own
+			if i == 0 || i == n-1 {
+				return cos[0]
+			}
+		}
+		return cos[i]
+	}
+	vals := make([]Staff, n)
+	ptrs := make([]*Staff, n)
+	for i := 0; i < n; i++ {
+		vals[i] = Staff{Name: fmt.Sprintf("r%d", i), Note: "c", Company: pick(i)}
+		ptrs[i] = &vals[i]
+	}
+	switch c.Shape {
+	case "ptr_slice":
+		return &vals
+	case "slice_val":
+		return vals
+	case "slice_ptr":
+		return ptrs
+	case "ptr_slice_ptr":
+		return &ptrs
+	}
+	panic("unsupported shape for Staff: " + c.Shape)
+}
+
+func walkStaff(staff []*Staff) (recs []record) {
+	seen := map[*Company]bool{}
+	for i, s := range staff {
+		if s == nil {
+			continue
+		}
+		recs = append(recs, record{Ident: fmt.Sprintf("[%d]", i), Table: "staffs", Addr: reflect.ValueOf(s).Pointer(), ID: s.ID, Name: s.Name, Root: i})
+		if co := s.Company; co != nil && !seen[co] {
+			seen[co] = true
+			recs = append(recs, record{Ident: "company:" + co.Name, Table: "companies", Addr: reflect.ValueOf(co).Pointer(), ID: co.ID, Name: co.Name, Root: i})
+		}
+	}
+	return
+}
+
 // walkNodes lists the records and edges of a Node graph.
 func walkNodes(arg interface{}) (recs []record, edges [][2]*Node) {
 	var roots []*Node
@@ -323,10 +398,26 @@ func (r record) ptable() string {
 
 // walkArg lists the in-memory records reachable from the argument.
 func walkArg(arg interface{}) (recs []record) {
-	switch arg.(type) {
+	switch v := arg.(type) {
 	case *Node, *[]*Node:
 		recs, _ = walkNodes(arg)
 		return
+	case []*Staff:
+		return walkStaff(v)
+	case *[]*Staff:
+		return walkStaff(*v)
+	case []Staff:
+		p := make([]*Staff, len(v))
+		for i := range v {
+			p[i] = &v[i]
+		}
+		return walkStaff(p)
+	case *[]Staff:
+		p := make([]*Staff, len(*v))
+		for i := range *v {
+			p[i] = &(*v)[i]
+		}
+		return walkStaff(p)
 	}
 	rv := reflect.ValueOf(arg)
 	for rv.Kind() == reflect.Ptr {
@@ -485,12 +576,24 @@ func rowByID(snap map[string][]string, table string, id uint) map[string]string 
 
 // run executes one program under the explorer's choice list.
 func (w *worker) run(c Case, x *mc.Exec) *Obs {
-	if l := w.env.Leaks(); l != "" {
+	if l := w.env.Leaks(); l != "" || w.env.DB.Statement.SkipHooks {
+		// (a handle poisoned by an earlier execution must not influence this one)
 		w.fresh()
 	}
 	e := w.env
 	e.MustExec(resetSQL)
 	o := &Obs{Case: c, DBPool: e.DB.ConnPool}
+	if c.Prelude != "" {
+		w.car.cur = nil // hooks of the prelude's own statements are no-ops
+		func() {
+			defer func() {
+				if r := recover(); r != nil {
+					o.Panic = "prelude: " + fmt.Sprint(r)
+				}
+			}()
+			e.Quiet(func() { prelude(e.DB, c.Prelude) })
+		}()
+	}
 	o.Pre = snapshot(e)
 	st := &execState{x: x, env: e, nth: map[string]int{}, body: c.Body}
 	w.car.cur = st
@@ -515,6 +618,9 @@ func (w *worker) run(c Case, x *mc.Exec) *Obs {
 		}
 		if c.Mode == "skiphooks" {
 			db = db.Session(&gorm.Session{SkipHooks: true})
+		}
+		if c.Mode == "skiphooks_newdb" {
+			db = db.Session(&gorm.Session{NewDB: true, SkipHooks: true})
 		}
 		var res *gorm.DB
 		switch c.Op {
@@ -622,6 +728,42 @@ func (w *worker) run(c Case, x *mc.Exec) *Obs {
 		}
 	}
 	return o
+}
+
+// prelude derives handles from db (the handle the operation will use) and
+// abandons them or uses them once; none of this may change what db does later.
+func prelude(db *gorm.DB, p string) {
+	var q *gorm.DB
+	switch strings.TrimSuffix(p, "_used") {
+	case "sess_skiphooks":
+		q = db.Session(&gorm.Session{SkipHooks: true})
+	case "sess_newdb_skiphooks":
+		q = db.Session(&gorm.Session{NewDB: true, SkipHooks: true})
+	case "sess_newdb":
+		q = db.Session(&gorm.Session{NewDB: true})
+	case "sess_newdb_context":
+		q = db.Session(&gorm.Session{NewDB: true, Context: context.Background()})
+	case "withcontext":
+		q = db.WithContext(context.Background())
+	case "debug":
+		q = db.Debug()
+	case "updatecolumn":
+		if err := db.Model(&Owner{ID: 3}).UpdateColumn("note", "p").Error; err != nil {
+			panic(err)
+		}
+		return
+	default:
+		panic("unknown prelude " + p)
+	}
+	if strings.HasSuffix(p, "_used") {
+		var o Owner
+		if err := q.First(&o).Error; err != nil {
+			panic(err)
+		}
+		if err := q.Model(&Owner{ID: 3}).Update("note", "p").Error; err != nil {
+			panic(err)
+		}
+	}
 }
 
 // fingerprint: the observation without addresses (determinism check,
